@@ -400,6 +400,15 @@ def r_poly_binop(sig, body, arg):
     return sig, body, 0
 
 
+def r_iter_mut_opassign(sig, body, arg):
+    """R4 + operator-assign desugaring: `for X in A.iter_mut() { *X OP= E; }` ->
+    `for vx_i in 0..A.len() { A[vx_i] = A[vx_i] OP E; }` (OpAssign == Op is discharged by U-FELT)."""
+    pat = re.compile(r"for\s+(\w+)\s+in\s+(\w+)\.iter_mut\(\)\s*\{\s*\*\1\s*([*+\-])=\s*([^;]+);\s*\}")
+    body, n = pat.subn(lambda m: "let vx_len = %s.len();\n    for vx_i in 0..vx_len {\n        %s[vx_i] = %s[vx_i] %s %s;\n    }" % (
+        m.group(2), m.group(2), m.group(2), m.group(3), m.group(4)), body)
+    return sig, body, n
+
+
 RULES = {
     "Self": r_self,
     "Generic": r_generic,
@@ -414,6 +423,7 @@ RULES = {
     "LastUnwrap": r_last_unwrap,
     "HoistChains": r_hoist_chains,
     "PolyBinOp": r_poly_binop,
+    "IterMutOpAssign": r_iter_mut_opassign,
 }
 RULE_IDS = {"Self": "R1", "Generic": "R1", "BoolAssign": "R2", "ForUnderscore": "R3",
             "BitVecIndex": "R6"}
